@@ -65,3 +65,9 @@ Theorem C16_reorder_keeps_spans : forall spans,
   map spW (reorder_spans spans) = map spW spans /\ map spL (reorder_spans spans) = map spL spans.
 Proof. exact reorder_spans_keeps. Qed.
 Print Assumptions C16_reorder_keeps_spans.
+
+(** F (frame). A line in which no span has level >= 1 is not reordered and not moved at all. *)
+Theorem C16_reorder_ltr_identity : forall spans, (forall s, In s spans -> (spL s <= 0)%Z) ->
+  visual_order spans = seq 0 (length spans) /\ reorder_spans spans = spans.
+Proof. exact reorder_spans_ltr_identity. Qed.
+Print Assumptions C16_reorder_ltr_identity.
